@@ -25,7 +25,7 @@ PROP = dict(
          "EnteringSyllable (empty / non-empty buffer) and Highlighting; #stat c06_probes.* count probes per (state / list kind, page "
          "position) and per answer, c06_ignored_with_page_gt0 / _with_empty_buffer(_and_open_list) the ignored probes that matter "
          "most; c06_bell_steps (+ .list_open / .with_notification / .entering / .entering_syllable) the steps answered with a bell on "
-         "which the full bell oracle ran. distinct = distinct record text",
+         "which the full bell oracle ran. distinct = distinct record text. Run editor-bfs (`editor --bfs all`, bfs.rs): breadth-first exploration of the REAL editor on small closed configurations (engine x auto_commit_threshold x option profile x alphabet over one tiny dictionary, auto-learning off), one `ed` record per (reachable state, operation of the alphabet), state identity = full snapshot + dictionary with only the estimator clock normalised; #stat bfs.<config>.closed / states / transitions / max_depth / states_<kind> / answers_<kind>; the configurations that closed are exhaustive ties (coverage.exhaustive_closed_worlds; Props/EditorTie.lean lifts them to every operation list over the alphabet), the others a breadth-first sample",
     trusted_base=["hook H1 (Editor::verif_snapshot) is read-only; the layout and conversion answers of each step are recorded "
                   "through wrapper objects installed through the public constructors"],
     assumptions=["'nothing is being composed' = state Entering with an empty pre-edit; an open candidate list or highlight "
